@@ -22,6 +22,9 @@ package main
 // So: auto-response is disabled only after the destination producer accepted the transaction,
 // an error (=> requeue) is returned whenever it refused, and exactly one transaction is started.
 //@ pred validRelayPH(ph *PublishHandler) := (ph != nil && len(ph.addresses) >= 1 && (ph.mode == ModeHostPool ==> ph.hostPool != nil) && (ph.mode == ModeRoundRobin || ph.mode == ModeHostPool))
+// main() creates one producer per destination address; the host pool is built from the same address list, so every host it
+// hands out has a producer (r3dHostOf: relay.spec).
+//@ pred r3dProducersFor(ph *PublishHandler) := ((forall i int :: {ph.addresses[i]} 0 <= i && i < len(ph.addresses) ==> has(ph.producers, ph.addresses[i]) && ph.producers[ph.addresses[i]] != nil) && (ph.mode == ModeHostPool ==> (forall r hostpool.HostPoolResponse :: {r3dHostOf(r)} has(ph.producers, r3dHostOf(r)) && ph.producers[r3dHostOf(r)] != nil)))
 //@ pred noFilter() := (old(*requireJSONField) == "" && len(old(whitelistJSONFields)) == 0)
 //@ func (ph *PublishHandler) HandleMessage(m *nsq.Message, destinationTopic string) error
 //@   props C20
@@ -32,7 +35,19 @@ package main
 //@   ensures[at-most-one-transaction] asyncCalls <= old(asyncCalls) + 1
 //@   ensures[unfiltered-always-forwarded] noFilter() ==> asyncCalls == old(asyncCalls) + 1 && asyncLastTopic == destinationTopic
 //@   ensures[nil-without-transaction-only-when-filtered] result == nil && asyncCalls == old(asyncCalls) ==> !noFilter()
-//@   modifies ph.counter, ph.requireJSONNumber, ph.requireJSONValueIsNumber, ph.requireJSONValueParsed, lastNow, asyncCalls, asyncRefused, asyncLastTopic, autoResponseDisabled, deref([]string), deref(map[string]any), mapstore(map[string]any)
+// r3d: WHICH producer gets WHAT, and what comes back to the responder. The transaction is started on the producer of the
+// address the mode selects (round-robin: the post-increment counter; host-pool: the host the pool handed out), with the
+// message body itself unless a filter / whitelist was requested, completes on the handler's own respChan and carries the
+// source message as its first argument - so the responder finishes / requeues THIS message - plus the arguments the responder
+// type-asserts for this mode. Host-pool mode: a refusal is reported to the pool here, an acceptance not yet (responder does).
+//@   requires[a-producer-per-destination] r3dProducersFor(ph)
+//@   ensures[transaction-carries-the-message] asyncCalls > old(asyncCalls) ==> r3dAsyncChan == ph.respChan && len(r3dAsyncArgs) == 3 && dyntype(r3dAsyncArgs[0]) == typetag("*nsq.Message") && unbox(r3dAsyncArgs[0], "*nsq.Message") == m && dyntype(r3dAsyncArgs[1]) == typetag("time.Time")
+//@   ensures[body-unmodified-unless-filtered] asyncCalls > old(asyncCalls) && noFilter() ==> r3dAsyncBody == m.Body
+//@   ensures[round-robin-next-producer] asyncCalls > old(asyncCalls) && ph.mode == ModeRoundRobin ==> ph.counter == fmod(old(ph.counter) + 1, 18446744073709551616) && r3dAsyncProd == ph.producers[ph.addresses[fmod(ph.counter, len(ph.addresses))]] && dyntype(r3dAsyncArgs[2]) == typetag("string") && unbox(r3dAsyncArgs[2], "string") == ph.addresses[fmod(ph.counter, len(ph.addresses))]
+//@   ensures[hostpool-chosen-producer] asyncCalls > old(asyncCalls) && ph.mode == ModeHostPool ==> r3dHPGets == old(r3dHPGets) + 1 && r3dAsyncProd == ph.producers[r3dHostOf(r3dHPLastResp)] && r3dAsyncArgs[2] == r3dHPLastResp && implements(r3dAsyncArgs[2], "hostpool.HostPoolResponse")
+//@   ensures[hostpool-told-a-refusal] asyncCalls > old(asyncCalls) && ph.mode == ModeHostPool ==> (asyncRefused ? r3dHPMarks == old(r3dHPMarks) + 1 && r3dHPMarked == r3dHPLastResp && r3dHPMarkErr == result : r3dHPMarks == old(r3dHPMarks))
+//@   ensures[message-untouched] m.Body == old(m.Body)
+//@   modifies ph.counter, ph.requireJSONNumber, ph.requireJSONValueIsNumber, ph.requireJSONValueParsed, lastNow, asyncCalls, autoResponseDisabled, r3dHPGets, r3dHPMarks, deref([]string), deref(map[string]any), mapstore(map[string]any)
 
 //@ func (t *TopicHandler) HandleMessage(m *nsq.Message) error
 //@   props C20
@@ -40,4 +55,7 @@ package main
 //@   requires[flags-initialised] requireJSONField != nil && requireJSONValue != nil
 //@   ensures[handed-over-only-if-accepted] autoResponseDisabled > old(autoResponseDisabled) ==> result == nil && asyncCalls == old(asyncCalls) + 1 && !asyncRefused
 //@   ensures[refused-means-requeue] asyncCalls > old(asyncCalls) && asyncRefused ==> result != nil && autoResponseDisabled == old(autoResponseDisabled)
+//@   requires[a-producer-per-destination] r3dProducersFor(t.publishHandler)
 //@   ensures[destination-topic] noFilter() ==> asyncCalls == old(asyncCalls) + 1 && asyncLastTopic == t.destinationTopic
+//@   ensures[transaction-carries-the-message] asyncCalls > old(asyncCalls) ==> r3dAsyncChan == t.publishHandler.respChan && len(r3dAsyncArgs) == 3 && dyntype(r3dAsyncArgs[0]) == typetag("*nsq.Message") && unbox(r3dAsyncArgs[0], "*nsq.Message") == m
+//@   ensures[body-unmodified-unless-filtered] asyncCalls > old(asyncCalls) && noFilter() ==> r3dAsyncBody == m.Body
